@@ -77,6 +77,11 @@ type scenario struct {
 	// and leave the backend untouched (a hung holder that still has its file open, an NFS silly-rename entry): a whole
 	// release attempt of an overriding contender fails, a later one works
 	RefuseRemovals int
+	// SlowBeat > 0: the SlowBeat-th time contender 0's heart-beat goroutine opens the heart-beat file, the backend takes
+	// SlowBeatFor over it (a slow disk or network round trip; the goroutine is blocked in the call, nobody is held up by the
+	// scheduler). The caller of Unlock does not wait for a beat in flight.
+	SlowBeat    int
+	SlowBeatFor time.Duration
 }
 
 type phase int
@@ -315,6 +320,20 @@ func body(sc scenario) func(x *gosim.Exec) {
 				return &vfsx.Inject{Err: &os.PathError{Op: "remove", Path: op.Path, Err: syscall.EBUSY}}
 			}
 		}
+		if sc.SlowBeat > 0 {
+			opens := 0
+			hook.BeforeOp = func(op *vfsx.Op) *vfsx.Inject {
+				if op.Client == 0 && op.Kind == vfsx.KOpenFile && op.Path == hbFile {
+					if th := x.Current(); th != nil && strings.Contains(th.First, "OpenFile("+hbFile) { // the beat goroutine, not TryLock's first write
+						if opens++; opens == sc.SlowBeat {
+							x.Note("the backend takes %v over %s", sc.SlowBeatFor, op)
+							time.Sleep(sc.SlowBeatFor)
+						}
+					}
+				}
+				return nil
+			}
+		}
 		shared := vfsx.NewShared(hook)
 		for i, c := range sc.Contenders {
 			i, c := i, c
@@ -401,6 +420,9 @@ func scenarios() []scenario {
 		if strings.Contains(name, "hold200") {
 			hold = 200 * time.Millisecond
 		}
+		if strings.Contains(name, "hold100") {
+			hold = 100 * time.Millisecond
+		}
 		if strings.Contains(name, "hold147") {
 			// longer than two heart-beat periods plus a lock try, and ending at the very instant the holder's fourth heart
 			// beat is due: the beat is "in flight" when the release begins
@@ -485,6 +507,23 @@ func scenarios() []scenario {
 		lateL.StartAfter = 250 * time.Millisecond
 		add(fmt.Sprintf("dead/Lock-override (first %d removals refused) + late Lock hold200 P0", n), "posixmem", "dead", 0, L(true), lateL)
 		out[len(out)-1].RefuseRemovals = n
+	}
+	// a release that begins while a heart beat of the releaser is stuck in a slow backend call; an overriding contender
+	// comes once the lock would look stale if it were still there
+	for _, beat := range []int{2, 3} {
+		// beat 2 is due at 49 ms and returns at 209 ms, beat 3 at 98 ms and 258 ms: the contender comes in between, when the
+		// newest completed beat is more than two periods old
+		late := T(true)
+		late.StartAfter = map[int]time.Duration{2: 150 * time.Millisecond, 3: 215 * time.Millisecond}[beat]
+		name := fmt.Sprintf("free/Try hold147 (beat %d takes 160 ms) + late Try-override P1", beat)
+		hold := "hold147"
+		if beat == 2 {
+			name = fmt.Sprintf("free/Try hold100 (beat %d takes 160 ms) + late Try-override P1", beat)
+			hold = "hold100"
+		}
+		_ = hold
+		add(name, "posixmem", "free", 1, T(false), late)
+		out[len(out)-1].SlowBeat, out[len(out)-1].SlowBeatFor = beat, 160*time.Millisecond
 	}
 	if f := os.Getenv("VERIF_SCENARIO"); f != "" {
 		var sel []scenario
